@@ -7,6 +7,7 @@ import (
 
 	"com.tuntun.rangers/node/src/common"
 	"com.tuntun.rangers/node/src/executor"
+	"com.tuntun.rangers/node/src/middleware/db"
 	"com.tuntun.rangers/node/src/middleware/log"
 	"com.tuntun.rangers/node/src/middleware/types"
 	"com.tuntun.rangers/node/src/service"
@@ -106,6 +107,26 @@ func VerifBlockMarks() (add bool, remove bool) {
 // VerifRawHeightHeader reads the height index bypassing the LRU cache.
 func VerifRawHeightHeader(height uint64) *types.BlockHeader {
 	return blockChainImpl.QueryBlockHeaderByHeight(height, false)
+}
+
+// VerifCachedHeightHeader peeks into the LRU in front of the height index
+// (no recency update, no store access); present tells a cached "no block"
+// from a missing entry.
+func VerifCachedHeightHeader(height uint64) (header *types.BlockHeader, present bool) {
+	v, ok := blockChainImpl.topBlocks.Peek(height)
+	if !ok {
+		return nil, false
+	}
+	if h, isHeader := v.(*types.BlockHeader); isHeader {
+		return h, true
+	}
+	return nil, true
+}
+
+// VerifWrapHeightDB puts wrap(store) in place of the height store, so that a
+// harness can hold a lock-free reader between its store read and its return.
+func VerifWrapHeightDB(wrap func(db.Database) db.Database) {
+	blockChainImpl.heightDB = wrap(blockChainImpl.heightDB)
 }
 
 // VerifRawHeadRecord reads the persisted head record.
